@@ -500,3 +500,174 @@ def config_presence_tests(chk: Check, R: str, only: tuple[str, ...] = ()) -> Non
                     )
                 chk.ob(R, f"start_server: `if {param}` on {c2.name} means presence", not special)
     chk.ob(R, "truthiness tests of configuration objects examined", True, f"{len(tested)} tested parameters, {n} classes", nontrivial=False)
+
+
+def class_stateless(chk: Check, R: str, ci: ClassInfo, rule_text: str, consequence: str) -> None:
+    """Outside __init__ no method of the class stores to, or mutates, an
+    attribute of self: an object shared by several requests / connections /
+    concurrent calls (the proxy's upstream client, a location's handler) keeps
+    nothing that one call writes and another reads."""
+    chk.rule(R, rule_text)
+    n = 0
+    ok = True
+    mutators = {"setdefault", "pop", "update", "append", "add", "clear", "popitem", "insert", "extend", "remove", "discard"}
+    for name, m in ci.methods.items():
+        if name == "__init__":
+            continue
+        for x in ast.walk(m.node):
+            hit = None
+            if isinstance(x, (ast.Assign, ast.AugAssign, ast.AnnAssign)):
+                tg = x.targets if isinstance(x, ast.Assign) else [x.target]
+                for t in tg:
+                    for tt in (t.elts if isinstance(t, (ast.Tuple, ast.List)) else [t]):
+                        base = tt.value if isinstance(tt, ast.Subscript) else tt
+                        if (dotted(base) or "").startswith(("self.", "cls.")) or (dotted(base) or "").startswith(ci.name + "."):
+                            hit = norm(tt)
+            elif isinstance(x, ast.Call) and method_call(x) and method_call(x)[1] in mutators and (dotted(method_call(x)[0]) or "").startswith("self.") and (dotted(method_call(x)[0]) or "").count(".") == 1:
+                hit = norm(x)[:60]
+            elif isinstance(x, ast.Delete) and any((dotted(t.value if isinstance(t, ast.Subscript) else t) or "").startswith("self.") for t in x.targets):
+                hit = norm(x)[:60]
+            if hit:
+                n += 1
+                ok = False
+                chk.finding(R, m.key, f"shared-state:{hit[:50]}", f"`{hit}` keeps state on the {ci.name} object that outlives the call: {consequence}", m.loc(x))
+    chk.ob(R, f"{ci.key}: no attribute of self is written outside __init__", ok, f"{n} writes", evals=len(ci.methods))
+
+
+def client_stateless(chk: Check, R: str, consequence: str) -> None:
+    class_stateless(
+        chk, R, chk.proj.cls("client.session:GeminiClient"),
+        "GeminiClient keeps no per-call state: outside __init__ no method stores to, or mutates, an attribute of self (one client object serves overlapping fetches - the reverse proxy shares one per location)",
+        consequence,
+    )
+
+
+def facade_complete(chk: Check, R: str) -> None:
+    """On the PyOpenSSL backend the inner protocol's `transport` is the
+    TLSTransportWrapper facade, not an asyncio transport: every transport method
+    the protocol calls must exist on the facade, or the call raises
+    AttributeError on that backend only - before anything is written."""
+    chk.rule(R, "every method the server protocol calls on self.transport is defined by the PyOpenSSL transport facade (TLSTransportWrapper): the two backends offer the protocol the same transport interface")
+    proto = chk.proj.cls(SERVER_PROTO)
+    fac = chk.proj.cls(TLS_WRAPPER)
+    used: dict[str, tuple] = {}
+    for m in proto.methods.values():
+        for c in calls(m.node):
+            mc = method_call(c)
+            if mc and dotted(mc[0]) in ("self.transport", "transport"):
+                used.setdefault(mc[1], (m, c))
+    chk.require(R, proto.key, "transport methods used by the protocol", len(used), 2, "the protocol no longer writes to / closes its transport")
+    for name, (m, c) in sorted(used.items()):
+        ok = chk.proj.find_method(fac, name) is not None or "__getattr__" in fac.methods
+        if not ok:
+            chk.finding(
+                R, m.key, f"facade-lacks:{name}",
+                f"`{norm(c)[:60]}`: TLSTransportWrapper, the transport the protocol is given on the PyOpenSSL backend, has no `{name}`: the call raises AttributeError there (nothing is sent, asyncio aborts the connection), while the stdlib backend works",
+                m.loc(c),
+            )
+        chk.ob(R, f"transport.{name} exists on the PyOpenSSL facade", ok)
+
+
+def request_objects_fresh(chk: Check, R: str) -> None:
+    """A request object is per connection: the protocol stores the upload content
+    and the client certificate on it after parsing.  A memoising decorator on the
+    parser hands two connections that sent the same line the same object."""
+    chk.rule(R, "the request parsers return a fresh object per call: from_line (and the module's parse helpers that return request objects) carry no memoising decorator (functools.lru_cache / cache / a hand-written cache)")
+    mi = chk.proj.module("protocol.request")
+    n = 0
+    ok = True
+    for c in mi.classes.values():
+        for name, m in c.methods.items():
+            if name != "from_line":
+                continue
+            n += 1
+            for dec in m.node.decorator_list:
+                d = dotted(dec.func if isinstance(dec, ast.Call) else dec) or ""
+                if d.split(".")[-1] in ("lru_cache", "cache", "cached", "memoize", "cached_property"):
+                    ok = False
+                    chk.finding(
+                        R, m.key, f"parser-memoised:{d}",
+                        f"`@{norm(dec)[:40]}` on {c.name}.from_line: connections that send a byte-identical request line share one mutable request object; the content (and client certificate) a second connection stores on it replaces the first one's before its upload task runs, so the first peer - answered 20 - has stored the other peer's bytes",
+                        m.loc(),
+                    )
+    chk.require(R, mi.name, "request parsers (from_line)", n, 2, "the request classes no longer have from_line parsers")
+    chk.ob(R, "request parsers are not memoised", ok, f"{n} parsers", evals=n)
+
+
+def timers_on_running_loop(chk: Check, R: str) -> None:
+    """`loop.call_later` arms the deadline on `loop`.  The loop must be the one
+    that runs this connection - obtained in the same activation - not one cached
+    on the class / instance by an earlier connection: after a restart of the
+    server in the same process the cached loop is closed or stopped and the
+    deadline never fires."""
+    from ..flow import Defs, _Sel, origins
+
+    chk.rule(R, "every deadline is armed on the loop that runs the connection: the receiver of call_later / call_at in the server protocols is the result of asyncio.get_running_loop() / get_event_loop() obtained in the same function, not a cached attribute")
+    n = 0
+    ok = True
+    for key in (SERVER_PROTO, TLS_PROTO):
+        ci = chk.proj.cls(key)
+        for m in ci.methods.values():
+            sites = [c for c in calls(m.node) if method_call(c) and method_call(c)[1] in ("call_later", "call_at")]
+            if not sites:
+                continue
+            g = build_cfg(chk.proj, m)
+            defs = Defs(g)
+            for c in sites:
+                n += 1
+                node = node_of_call(g, c)
+                recv = method_call(c)[0]
+                leaves = origins(defs, node, recv) if isinstance(recv, ast.Name) else [(node, recv)]
+                good = bool(leaves) and all(isinstance(le, ast.Call) and (dotted(le.func) or "").split(".")[-1] in ("get_running_loop", "get_event_loop") for _n, le in leaves if not isinstance(le, _Sel)) and not any(isinstance(le, _Sel) for _n, le in leaves)
+                if not good:
+                    ok = False
+                    chk.finding(
+                        R, m.key, f"timer-on-cached-loop:{norm(recv)[:40]}",
+                        f"`{norm(c)[:70]}` arms the deadline on `{norm(recv)}`, which is not the running loop obtained in this activation: a loop remembered from an earlier connection may be closed or stopped (server restarted in the same process), and a silent peer is then never disconnected",
+                        m.loc(c),
+                    )
+                chk.ob(R, f"{m.key}: `{norm(c)[:50]}` on the running loop", good)
+    chk.require(R, "server protocols", "deadline registrations", n, 2, "the protocols arm no deadline any more")
+
+
+def redirect_target_fidelity(chk: Check, R: str) -> None:
+    """The next hop is the URL the server named.  Between reading it from the
+    response and fetching it no rewriting call may lie on its definition chain:
+    decode-and-re-encode turns an escaped reserved character (%2F, %3F, %26)
+    into a live delimiter and the hop asks for another resource."""
+    from ..flow import Defs
+
+    chk.rule(R, "the redirect target is followed as the server sent it: on the definition chain from response.redirect_url / meta to the URL handed to the next fetch there is no quoting / unquoting / replacing / trimming / case-folding call")
+    altering = {"strip", "rstrip", "lstrip", "lower", "upper", "casefold", "replace", "translate", "removeprefix", "removesuffix", "normalize", "unquote", "quote", "unquote_plus", "quote_plus", "sub", "normalize_url"}
+    fi = chk.proj.func("client.session:GeminiClient._get_with_redirects")
+    g = build_cfg(chk.proj, fi)
+    d = Defs(g)
+    sites = []
+    for n_ in g.nodes:
+        if n_.ast is None or n_.kind != "stmt":
+            continue
+        for c in calls(n_.ast):
+            if method_call(c) and method_call(c)[1] in ("_get_with_redirects", "_get_single", "get") and dotted(method_call(c)[0]) == "self" and c.args:
+                sites.append((n_, c))
+    chk.require(R, fi.key, "fetch calls in the follower", len(sites), 2, "the follower no longer fetches")
+    for node, call in sites:
+        seen, todo, bad = set(), [(node, call.args[0])], []
+        while todo:
+            at, e = todo.pop()
+            for x in walk(e):
+                if isinstance(x, ast.Call):
+                    nm = method_call(x)[1] if method_call(x) else (dotted(x.func) or "").split(".")[-1]
+                    if nm in altering:
+                        bad.append((at, x))
+                if isinstance(x, ast.Name) and (at.id, x.id) not in seen:
+                    seen.add((at.id, x.id))
+                    for dn, val, _sel in d.at(at, x.id):
+                        if val is not None:
+                            todo.append((dn, val.value if isinstance(val, ast.AugAssign) else val))
+        for at, x in bad[:1]:
+            chk.finding(
+                R, fi.key, f"redirect-target-rewritten:{norm(x)[:50]}",
+                f"the URL fetched by `{norm(call)[:50]}` passes through `{norm(x)[:70]}`: the hop requests another URL than the one the server named (an escaped `%2F` / `%3F` / `%26` becomes a path separator / query start / parameter separator), so a loop-free chain is not followed to its final response",
+                at.where(),
+            )
+        chk.ob(R, f"{fi.key}: `{norm(call)[:50]}` fetches the URL as given", not bad, evals=len(seen) + 1)
